@@ -235,6 +235,23 @@ func (fr *faultRun) commitFaulty() bool {
 		w.Disk.ClearFaults()
 		f := w.F
 		var cerr error
+		// ... and transactions can still be begun and ended without leaking a lock
+		if w.guard("Begin/Close(after a failed remap)", func() {
+			if tx, err := f.BeginReadonly(); err == nil {
+				tx.Close()
+			}
+			if tx, err := f.Begin(); err == nil {
+				tx.Close()
+			}
+		}) {
+			return false
+		}
+		if shared, pending, resFree := f.VerifLockState(); shared != 0 || pending || !resFree {
+			w.failed = false
+			w.violate("lock-leak", fmt.Sprintf("lock-leak:after-failed-remap:shared=%d,pending=%v,reservedFree=%v", shared, pending, resFree),
+				"after a commit whose final mmap/truncate failed, beginning and ending transactions left the lock state shared=%d pending=%v reservedFree=%v", shared, pending, resFree)
+			return false
+		}
 		if !w.guard("File.Close(after a failed remap)", func() { cerr = f.Close() }) {
 			w.F = nil
 			if w.Disk.Locked() || !w.Disk.Closed() {
